@@ -208,8 +208,10 @@ def build_driver():
     # extraction output lands in the cwd of coqc: run it again from EXTRACT (cheap; .vo is up to date)
     run(["coqc", "-Q", os.path.join(COQ, "theories"), "PasfmtVerif", "-o", os.path.join(EXTRACT, "Extract.vo"),
          os.path.join(COQ, "theories", "Extract", "Extract.v")], cwd=EXTRACT, stage="extraction")
+    # u_e2e.ml uses helpers of the other units: it is compiled after them
     srcs = ["gen_names.ml", "util.ml", "trace.ml", "common.ml"] + sorted(
-        os.path.basename(f) for f in glob.glob(os.path.join(ROOT, "driver", "u_*.ml"))) + ["main.ml"]
+        (os.path.basename(f) for f in glob.glob(os.path.join(ROOT, "driver", "u_*.ml"))),
+        key=lambda f: (f == "u_e2e.ml", f)) + ["main.ml"]
     h = hashlib.sha256()
     for f in ["model.ml", "model.mli"]:
         h.update(open(os.path.join(EXTRACT, f), "rb").read())
